@@ -61,6 +61,15 @@ class ScopesDriver:
                     else:
                         disps = (None, [], [Disp(w, f"d{self.nsid}", shape="none")])[self.nact % 3]
                     w.do(str(t), "ascope", self.nsid, direct, disps, None)
+        elif name == "Prepare":
+            t, kind, direct = args
+            if kind != "update":
+                self.nsid += 1
+            w.do(str(t), "prepare", kind, self.nsid if kind != "update" else 0, [tuple(p) for p in direct])
+        elif name == "EnterPrepared":
+            w.do(str(args[0]), "enterprep")
+        elif name == "ReEnter":
+            w.do(str(args[0]), "reenter")
         elif name in ("Leave", "End"):
             w.do(str(args[0]), "leave", "return")
         elif name == "Try":
@@ -165,6 +174,6 @@ def gen_trace(rnd, ntasks=4, nops=28, max_depth=6):
 
 
 TRACE_KW = dict(
-    variables=["st", "on", "ms", "tg", "frames", "base", "pc", "grp", "caught", "nsid", "nops", "actor", "obs"],
-    constants=dict(NTasks=4, Types='{"A", "B"}', Vals="{1, 2}", MaxDepth=6, MaxOps=100000, SupKind='"tiny"', Bug='"none"'),
-    config_vars=[], actions=dict(Enter=4, Leave=1, Start=3, End=1, Try=1, Raise=2), invariants=["LexicalLookup", "ScopeIdsFresh"])
+    variables=["st", "on", "ms", "tg", "frames", "base", "pc", "grp", "caught", "prep", "nsid", "nops", "actor", "obs"],
+    constants=dict(NTasks=4, Types='{"A", "B"}', Vals="{1, 2}", MaxDepth=6, MaxOps=100000, SupKind='"tiny"', Bug='"none"', Prep="TRUE"),
+    config_vars=[], actions=dict(Enter=4, Leave=1, Start=3, End=1, Try=1, Raise=2, Prepare=3, EnterPrepared=1, ReEnter=1), invariants=["LexicalLookup", "ScopeIdsFresh"])
